@@ -32,6 +32,7 @@ type wsMsg struct {
 }
 
 type wsSession struct {
+	fmsg   []int // per frame: index of the message it belongs to, -1 for control frames
 	frames []wsref.Frame
 	ends   []int // end offset of every frame on the wire
 	msgs   []wsMsg
@@ -96,6 +97,7 @@ func genSession(x *engine.X, maxMsgs int, lengths []int) *wsSession {
 		ctlSeed++
 		f := wsref.Frame{Fin: true, Op: ctlKinds[k].op, Payload: payloadBytes(100+ctlSeed, ctlKinds[k].n)}
 		s.frames = append(s.frames, f)
+		s.fmsg = append(s.fmsg, -1)
 		s.ctls = append(s.ctls, f)
 	}
 	for m := 0; m < nmsg; m++ {
@@ -122,15 +124,21 @@ func genSession(x *engine.X, maxMsgs int, lengths []int) *wsSession {
 				op = wsref.OpCont
 			}
 			s.frames = append(s.frames, wsref.Frame{Fin: i == len(parts)-1, Op: op, Payload: p[off : off+l]})
+			s.fmsg = append(s.fmsg, m)
 			off += l
 		}
 	}
 	addCtl("after the last message")
+	s.encode()
+	return s
+}
+
+func (s *wsSession) encode() {
+	s.wire, s.ends = nil, nil
 	for _, f := range s.frames {
 		s.wire = append(s.wire, f.Encode()...)
 		s.ends = append(s.ends, len(s.wire))
 	}
-	return s
 }
 
 // cutPositions: every byte position of a short stream; for a long one the positions around every frame
